@@ -423,39 +423,38 @@ def run(chk):
     # ------------------------------------------------------------------ R11.4
     check_kernel_wrappers(chk, r4)
 
-    # ------------------------------------------------------------------ R11.5 get_smooth_coeffs
+    # ------------------------------------------------------------------ R11.5 get_smooth_coeffs (interpreted on dual numbers)
+    from engine.absint import ModuleEnv
     gs = chk.repo.func(BM, "get_smooth_coeffs")
-    try:
-        c = Converter()
-        hbp, ph, cbp, pc = sp.symbols("hdd_bp pct_hdd_k cdd_bp pct_cdd_k", real=True)
-        c.env.update({"hdd_bp": hbp, "pct_hdd_k": ph, "cdd_bp": cbp, "pct_cdd_k": pc})
-        body = [s for s in gs.node.body if not (isinstance(s, ast.Expr) and isinstance(s.value, ast.Constant))]
-        # literal pct_match = 1 folds the lambertw branch away
-        pm = [s for s in body if isinstance(s, ast.Assign) and unparse(s.targets[0]) == "pct_match"]
-        r5.require(len(pm) == 1 and unparse(pm[0].value) == "1", f"{gs.key}|pct_match-literal-1", gs.where(), "pct_match must be the literal 1 (otherwise the lambertw branch changes the smoothing)")
-        straight = []
-        for s in body:
-            if isinstance(s, ast.If):
-                continue
-            if isinstance(s, ast.Assign) and unparse(s.targets[0]) in ("pct_match",):
-                continue
-            straight.append(s)
-        for s in straight:
-            if isinstance(s, ast.Assign) and len(s.targets) == 1 and isinstance(s.targets[0], ast.Name) and unparse(s.targets[0]) in ("hdd_w",) or (isinstance(s, ast.Assign) and len(s.targets) == 2):
-                c.env["hdd_w"] = sp.Integer(0)
-                c.env["cdd_w"] = sp.Integer(0)
-                continue
-            if isinstance(s, ast.Assign) and isinstance(s.targets[0], ast.Name):
-                c.env[s.targets[0].id] = c.conv(s.value)
-            elif isinstance(s, ast.Return):
-                ret = c.conv(s.value.args[0]) if isinstance(s.value, ast.Call) else c.conv(s.value)
-        nh, nk_h, nc, nk_c = ret
-        gap = cbp - hbp
-        r5.require(sp.simplify(nk_h - ph * gap) == 0 and sp.simplify(nk_c - pc * gap) == 0, f"{gs.key}|k=fraction*gap", gs.where(), f"smoothing parameters must be the fractions of the balance-point gap; found {nk_h}, {nk_c}", sample={"hdd_k": str(nk_h), "cdd_k": str(nk_c)})
-        r5.require(sp.simplify((nc - nh) - gap * (1 - ph - pc)) == 0, f"{gs.key}|gap-shrinks-by-fractions", gs.where(), f"shifted balance points must satisfy cdd_bp' - hdd_bp' = gap*(1 - pct_hdd_k - pct_cdd_k); found {sp.simplify(nc - nh)}",
-                   sample={"new_gap": str(sp.simplify(nc - nh))})
-        ren = [s for s in body if isinstance(s, ast.If) and unparse(s.test) == "pct_k_sum > 1"]
-        ok = len(ren) == 1 and sorted(unparse(x) for x in ren[0].body) == ["pct_cdd_k /= pct_k_sum", "pct_hdd_k /= pct_k_sum"] and any(isinstance(s, ast.Assign) and unparse(s) == "pct_k_sum = pct_hdd_k + pct_cdd_k" for s in body)
-        r5.require(ok, f"{gs.key}|renormalise-when-sum>1", gs.where(), "fractions summing to more than 1 must be renormalised (otherwise the shifted balance points cross)")
-    except (ExUnsupported, Exception) as e:
-        r5.require(False, f"{gs.key}|closed-form", gs.where(), f"cannot establish get_smooth_coeffs: {e}")
+    if gs.params[:4] != ["hdd_bp", "pct_hdd_k", "cdd_bp", "pct_cdd_k"]:
+        raise AnalysisError(f"get_smooth_coeffs signature changed: {gs.params}")
+    hbp_s, ph_s, cbp_s, pc_s = sp.symbols("hdd_bp pct_hdd_k cdd_bp pct_cdd_k", real=True)
+
+    class _LW(Stub):
+        def _abs_call(self, x):
+            r_ = SymNum(0.2, sp.Function("lambertw")(SymNum.lift(x).expr))
+            r_.real = r_
+            return r_
+    gap = cbp_s - hbp_s
+    scen = {"both-fractions-below-1%": (0.001, 0.002, [hbp_s, sp.Integer(0), cbp_s, sp.Integer(0)]),
+            "fractions-sum<=1": (0.2, 0.3, [hbp_s + ph_s * gap, ph_s * gap, cbp_s - pc_s * gap, pc_s * gap]),
+            "fractions-sum=1": (0.4, 0.6, [hbp_s + ph_s * gap, ph_s * gap, cbp_s - pc_s * gap, pc_s * gap]),
+            "fractions-sum>1": (0.8, 0.6, [hbp_s + ph_s / (ph_s + pc_s) * gap, ph_s / (ph_s + pc_s) * gap, cbp_s - pc_s / (ph_s + pc_s) * gap, pc_s / (ph_s + pc_s) * gap]),
+            "one-fraction-below-1%": (0.001, 0.5, [hbp_s + ph_s * gap, ph_s * gap, cbp_s - pc_s * gap, pc_s * gap])}
+    for nm, (phv, pcv, want) in scen.items():
+        try:
+            it = Interp(step_limit=20000)
+            env = ModuleEnv(chk.repo, gs.module, it, {"np": NPs(), "numpy": NPs(), "lambertw": _LW()})
+            res = list(Function(gs.node, env, it)(SymNum(50.0, hbp_s), SymNum(phv, ph_s), SymNum(70.0, cbp_s), SymNum(pcv, pc_s)))
+            got = [SymNum.lift(x).expr for x in res]
+        except Unsupported as e:
+            raise AnalysisError(f"get_smooth_coeffs uses an operation outside the modelled subset: {e}")
+        ok = len(got) == 4 and all(sp.simplify(g - w) == 0 for g, w in zip(got, want))
+        key = {"both-fractions-below-1%": "unsmoothed-below-1%", "fractions-sum>1": "renormalised-when-sum>1"}.get(nm, "k=fraction*gap")
+        r5.require(ok, f"{gs.key}|{key}|{nm}", gs.where(),
+                   f"get_smooth_coeffs ({nm}): expected [hdd_bp + k_h, k_h, cdd_bp - k_c, k_c] with k = fraction * (cdd_bp - hdd_bp)"
+                   f"{' after dividing both fractions by their sum' if nm == 'fractions-sum>1' else ''}{' = [hdd_bp, 0, cdd_bp, 0]' if nm.startswith('both') else ''}; found {[str(sp.simplify(g)) for g in got]}",
+                   sample={"scenario": nm, "result": [str(sp.simplify(g)) for g in got]})
+        if ok and len(got) == 4:
+            new_gap = sp.simplify(got[2] - got[0])
+            r5.require(sp.simplify(new_gap - sp.simplify(want[2] - want[0])) == 0, f"{gs.key}|gap-shrinks-by-fractions|{nm}", gs.where(), f"shifted balance points: new gap {new_gap}")
